@@ -486,10 +486,16 @@ def sc_bundle_store(rng):
             objs.append(b.mk(share_members(b, sdo_kw(rng, ver, ty, full=True))))
     lst = b.mk([Ref(i) for i in objs])
     r = rng.random()
-    if r < 0.3:
+    if r < 0.25:
         bun = b.add(op="bundle", cls=cls_name(ver, "Bundle"), args=objs[:2])
-    elif r < 0.6:
+    elif r < 0.45:
         bun = b.add(op="bundle", cls=cls_name(ver, "Bundle"), args=[lst])
+    elif r < 0.7:
+        # a list followed by further positional arguments, and an `objects` keyword as well
+        more = b.mk(share_members(b, sdo_kw(rng, ver, "identity", full=True)))
+        kwl = b.mk({"objects": Ref(b.mk([Ref(more)]))}) if rng.random() < 0.5 else None
+        bun = b.add(op="bundle", cls=cls_name(ver, "Bundle"), args=[lst, more] + ([lst] if rng.random() < 0.3 else []),
+                    **({"kw": kwl} if kwl is not None else {}))
     else:
         bun = b.add(op="bundle", cls=cls_name(ver, "Bundle"), kw=b.mk({"objects": Ref(lst)}))
     b.add(op="bundle", cls=cls_name(ver, "Bundle"), args=[lst] if rng.random() < 0.5 else objs)   # shared between bundles
